@@ -88,6 +88,19 @@ def configs(thorough):
         ("T9", "laplace_sl", ("P", 1, seg([1], include_boundary_dofs=True, truncate_at_segment_edge=False)), ("P", 1, seg([0, 1], include_boundary_dofs=False)), 1, 1),
         ("T4", "maxwell_e", ("RWG", 0, {}), ("SNC", 0, {}), 1, 1),
     ]
+    # supports that touch in ONE VERTEX only (no common element, no common edge): the singular rule has only
+    # vertex-adjacent pairs; and supports with nothing in common (regular part only)
+    v6, e6, _ = W.mesh("T6")
+    e6 = np.asarray(e6)
+    va = next((a, c) for a in range(e6.shape[1]) for c in range(e6.shape[1]) if a < c and len(set(e6[:, a]) & set(e6[:, c])) == 1)
+    far = next((a, c) for a in range(e6.shape[1]) for c in range(e6.shape[1]) if a < c and len(set(e6[:, a]) & set(e6[:, c])) == 0)
+    sup = lambda *els, **kw: dict(support_elements=np.array(els, dtype="uint32"), **kw)
+    out += [
+        ("T6", "laplace_sl", ("DP", 0, sup(va[0])), ("DP", 0, sup(va[1])), 1, 1),
+        ("T6", "helmholtz_dl", ("P", 1, sup(va[0], include_boundary_dofs=True)), ("DP", 1, sup(va[1])), 1, 1),
+        ("T6", "laplace_hyp", ("P", 1, sup(va[1], include_boundary_dofs=True)), ("P", 1, sup(va[0], include_boundary_dofs=True)), 1, 1),
+        ("T6", "modhelm_sl", ("DP", 0, sup(far[0])), ("DP", 1, sup(far[1])), 1, 1),
+    ]
     if thorough:
         out += [
             ("T6", "laplace_dl", ("P", 1, {}), ("P", 1, seg([0])), 2, 2),
